@@ -42,8 +42,9 @@ def clause_sync_after_merge(prog, rep, syncs):
         # a call that guarantees the sync (wrapper), or an eviction save (Inactive)
         if ts and all(_guarantees_sync(prog, t, sync_paths) for t in ts):
             return True
-        if reach_save.call(c):
-            for t in ts:
+        bodies = A.closure_args(prog, c) if not ts else []
+        if reach_save.call(c) or any(reach_save.fn(g.path) for g in bodies):
+            for t in ts + bodies:
                 ext = prog.extent(t)
                 if any(any(True for _ in prog.fns[q].aggregates("GroupState", "Inactive")) for q in ext if q in prog.fns):
                     return True
